@@ -140,6 +140,64 @@ pub fn explore(ex: &Ex) {
         l.state(0);
         offer_all_types(ex, "c09.nonarray", &it.det(), tagged, l);
     });
+    // opaque byte strings are opaque: every byte-string slot of every valid message (top level and in
+    // nested elements) replaced by strings at the head-width thresholds and by contents that look
+    // like CBOR themselves (a tag, an array head, an empty bstr / map, nil, break), NUL, 0xff
+    {
+        let lens: &[usize] = match ex.scale {
+            Scale::Small => &[24, 256],
+            Scale::Quick => &[0, 1, 23, 24, 255, 256, 65535, 65536],
+            Scale::Thorough => &[0, 1, 22, 23, 24, 25, 254, 255, 256, 257, 65534, 65535, 65536, 65537, 1 << 20],
+        };
+        let mut contents: Vec<Vec<u8>> = lens.iter().map(|n| gen::pattern(*n)).collect();
+        for c in [&[0xd2u8, 0x84, 0x40, 0xa0, 0xf6, 0x40][..], &[0x40], &[0xa0], &[0xf6], &[0xff], &[0x00], &[0x84, 0x40, 0xa0, 0xf6, 0x40], &[0xd8, 0x3d], &[0xc2, 0x41, 0x01], &[b' ', b'x', b' ']] {
+            contents.push(c.to_vec());
+        }
+        ex.bound("c09.opaque", "contents", json!(contents.len()));
+        // positions of byte strings in an item (depth-first), excluding protected-header strings
+        // (those must hold a header map: C02 / C08 vary them)
+        fn bstr_paths(it: &Item, path: &mut Vec<usize>, out: &mut Vec<Vec<usize>>) {
+            match it {
+                Item::Bytes(_) => out.push(path.clone()),
+                Item::Array(a) => {
+                    for (k, x) in a.iter().enumerate() {
+                        // slot 0 of a structure array is its protected header
+                        if k == 0 && matches!(x, Item::Bytes(_)) {
+                            continue;
+                        }
+                        path.push(k);
+                        bstr_paths(x, path, out);
+                        path.pop();
+                    }
+                }
+                _ => {}
+            }
+        }
+        fn replace_at(it: &Item, path: &[usize], with: &[u8]) -> Item {
+            match (it, path.split_first()) {
+                (Item::Bytes(_), None) => Item::Bytes(with.to_vec()),
+                (Item::Array(a), Some((k, rest))) => Item::Array(a.iter().enumerate().map(|(j, x)| if j == *k { replace_at(x, rest, with) } else { x.clone() }).collect()),
+                (x, _) => x.clone(),
+            }
+        }
+        par_partitions(ex.rep, valid_messages(), |(ty, it), l| {
+            let mut paths = Vec::new();
+            bstr_paths(it, &mut Vec::new(), &mut paths);
+            for path in &paths {
+                for c in &contents {
+                    let m = replace_at(it, path, c);
+                    l.state(1);
+                    let bytes = m.det();
+                    ex.decode(l, "c09.opaque", *ty, Entry::Slice, &bytes);
+                    if tagged {
+                        if let Some(t) = crate::refcose::tag_of(*ty) {
+                            ex.decode(l, "c09.opaque", *ty, Entry::Tagged, &Item::tag(t, m.clone()).det());
+                        }
+                    }
+                }
+            }
+        });
+    }
     // encodings of valid messages
     let d = ex.pick(1usize, 1, 2);
     ex.bound("c09.encodings", "deviations_max", json!(d));
